@@ -864,7 +864,7 @@ def exhaustive_relabel(ctx, binary, n, k, gs):
                 if first is None:
                     first = (g, h)
                 break
-    ctx.count("exhaustive-relabel-%d-%d" % (n, k), True, n=len(gs))
+    ctx.stat("conn:exhaustive-relabel-lookups", n=len(gs))      # the graphs themselves are counted once, in judge_conn
     ctx.extra.setdefault("exhaustive_relabel", {})["N=%d,k=%d" % (n, k)] = {"graphs": len(gs), "order_dependent": bad}
     if first:
         a, b = first
